@@ -12,8 +12,33 @@ extern "C" __attribute__((noinline)) void k_rt(uint32_t idx, uint64_t len, uint6
     out[2] = none.term_idx; out[3] = none.len;
 }
 '''
+CT_CPP = r'''#include "hv.h"
+using namespace ctpg;
+// what a custom term carries into the grammar: its name, precedence and associativity must arrive exactly as for char/string/regex terms
+extern "C" __attribute__((noinline)) void k_ct(int32_t prec, uint32_t assoc, int32_t* out)
+{
+    associativity a = assoc == 0 ? associativity::no_assoc : assoc == 1 ? associativity::ltor : associativity::rtol;
+    custom_term t("op", [](std::string_view sv){ return (unsigned)sv.size(); }, prec, a);
+    char_term c('-', prec, a);
+    out[0] = t.get_precedence(); out[1] = (int32_t)t.get_associativity();
+    out[2] = c.get_precedence(); out[3] = (int32_t)c.get_associativity();
+    custom_term d("op", [](std::string_view sv){ return (unsigned)sv.size(); });
+    out[4] = d.get_precedence(); out[5] = (int32_t)d.get_associativity();
+    out[6] = (int32_t)associativity::no_assoc; out[7] = (int32_t)associativity::ltor; out[8] = (int32_t)associativity::rtol;
+    out[9] = t.get_name()[0] == 'o' && t.get_name()[1] == 'p' && t.get_name()[2] == 0;
+}
+'''
 def kernels(wd):
-    return [kernel.Kernel(wd, 'recognized_term', RT_CPP, protos=[('void', 'k_rt', ['uint32_t', 'uint64_t', 'uint64_t*'])],
+    return [kernel.Kernel(wd, 'custom_term', CT_CPP, protos=[('void', 'k_ct', ['int32_t', 'uint32_t', 'int32_t*'])],
+        inputs=[('PREC', 'int32_t', 1), ('ASSOC', 'uint32_t', 1)], outputs=[('OUT', 'int32_t', 10)], assume='ASSOC <= 2',
+        call_c='  K(k_ct)(PREC, ASSOC, OUT);',
+        oracle_c='''  CHECK(OUT[0] == PREC, "a custom term keeps the precedence it was declared with");
+  CHECK(OUT[1] == OUT[6 + ASSOC], "a custom term keeps the associativity it was declared with");
+  CHECK(OUT[0] == OUT[2] && OUT[1] == OUT[3], "custom terms and generated-lexer terms carry the same precedence / associativity into conflict resolution");
+  CHECK(OUT[4] == 0 && OUT[5] == OUT[6], "defaults: precedence 0, no associativity");
+  CHECK(OUT[9] == 1, "the custom term's name is the one given");''',
+        witness='PREC == -7 && ASSOC == 1 && OUT[1] == OUT[7]', meta={'module': 'c18'}),
+      kernel.Kernel(wd, 'recognized_term', RT_CPP, protos=[('void', 'k_rt', ['uint32_t', 'uint64_t', 'uint64_t*'])],
         inputs=[('IDX', 'uint32_t', 1), ('LENV', 'uint64_t', 1)], outputs=[('OUT', 'uint64_t', 4)], assume='IDX < 65535',
         call_c='  K(k_rt)(IDX, LENV, OUT);',
         oracle_c='''  CHECK(OUT[0] == IDX, "the term index returned by a custom lexer reaches the parser unchanged");
@@ -21,7 +46,8 @@ def kernels(wd):
   CHECK(OUT[2] == 65535, "the default-constructed result is the failure value");''',
         witness='LENV > 70000 && OUT[1] == LENV', meta={'module': 'c18'})]
 def replay(r, wd):
-    k = kernels(wd)[0]; k.unit.build(); k.build_native(); return k.run_native('real', r['inputs'])
+    for k in kernels(wd):
+        if k.name == r['kernel']: k.unit.build(); k.build_native(); return k.run_native('real', r['inputs'])
 
 def run(tier, seed):
     d = {g.name: g for g in families.g_dir() + families.g_err()}
